@@ -104,6 +104,8 @@ pub fn io(seed: u64) -> Vec<crate::io::Op> {
                 b.truncate(300);
                 out.push(Op::Data(b));
             }
+            // no real file system under Miri's isolation
+            Op::Real { .. } => {}
             o => {
                 // a spread of the enumerated executions; no buffer scribbling and
                 // at most 6 reads each (every read costs seconds under Miri)
